@@ -78,6 +78,16 @@ let () =
           | OTokErr e -> print_endline ("TOK" ^ tokerr e)
           | OParseErr e -> print_endline (parseerr e)
           | OTree t -> let b = Buffer.create 1024 in show b t; print_endline (Buffer.contents b))
+       | "ptoks" ->
+         (* parse a given token list: v mode start_rule ntoks (type line col str prefix)* ; type by index in the ttype enumeration *)
+         let v = nextn () in let m = if next () = 1 then Recover else Strict in let start = nextn () in
+         let n = next () in
+         let tys = [| STRING; NUMBER; NAME; ERRORTOKEN; NEWLINE; INDENT; DEDENT; ERROR_DEDENT; FSTRING_STRING; FSTRING_START; FSTRING_END; OP; ENDMARKER |] in
+         let toks = List.init n (fun _ -> let t = tys.(next ()) in let l = nextn () in let c = nextn () in let s = str () in let p = str () in
+                                   { ty = t; ts = s; tline = l; tcol = c; tpre = p }) in
+         (match parse_tokens v m start toks with
+          | PErr e -> print_endline (parseerr e)
+          | POk t -> let b = Buffer.create 1024 in show b t; print_endline (Buffer.contents b))
        | "prefix" ->
          let l = nextn () in let c = nextn () in let p = str () in
          (match split_prefix_m p l c with
